@@ -9,7 +9,7 @@ from checks.exporter_common import run_histories, rng_for
 
 def histories(chk, tier):
     rng = rng_for(chk, 1)
-    n = 120 if tier == "quick" else 1500
+    n = 120 if tier == "quick" else 6000
     hs = []
     for i in range(n):
         comp = ["none", "none", "gz", "xz"][i % 4] if i % 5 == 0 else "none"
